@@ -80,7 +80,8 @@ def generate(seed: int, tier: str) -> Dict[str, Any]:
                        "utter": r.choice(["", "hello", "reply from %s" % a])})
     if len(agents) >= 2 and r.chance(0.12):
         # the same agent listed twice in one batch: its second task overlaps the already selected first one
-        dup = dict(agents[0], text=E.gen_text(r), utter="second task of %s" % agents[0]["id"])
+        dup = dict(agents[0], text=E.gen_text(r) + " again", utter="second task of %s" % agents[0]["id"],
+                   deltas=[{"id": "n:%s_second" % agents[0]["id"], "delta": 0.7}])
         agents.insert(r.randint(1, len(agents)), dup)
     return {"target": "contract", "agents": agents, "workers": r.randint(2, 8), "limits": [1, r.choice([60, 200, 1000, 6000]), 32 * 1024 * 1024],
             "every": r.choice([1, 1, 2, 3]), "turn_id": r.choice([0, 1, 2, 6, "7"]), "bust": r.choice(["none", "on-apply"]),
@@ -106,7 +107,8 @@ class _Store:
 
 def _mk_stub(spec_by_agent: Dict[str, Dict[str, Any]]):
     def stub(self, ctx, state, text):
-        spec = spec_by_agent[str(ctx.agent_id)]
+        # what a turn does is a function of (agent, input text): two tasks of one agent are different turns
+        spec = spec_by_agent.get((str(ctx.agent_id), str(text))) or spec_by_agent[str(ctx.agent_id)]
         for rec in spec["logs"]:
             live = copy.deepcopy(dict(rec["payload"], turn=ctx.turn_id))
             append_jsonl(rec["stream"], live)
@@ -143,7 +145,10 @@ def _contract_once(p: Dict[str, Any], mode: str, limit: Optional[int], stats: Di
     """mode: 'driver' (parallel gate on, staging byte limit `limit`) or 'loop' (sequential reference over `picked`)."""
     clock = SimClock(None, "steady")
     out: Dict[str, Any] = {"exc": None}
-    spec_by_agent = {a["id"]: a for a in p["agents"]}
+    spec_by_agent: Dict[Any, Dict[str, Any]] = {}
+    for a in p["agents"]:
+        spec_by_agent.setdefault(a["id"], a)
+        spec_by_agent[(a["id"], a["text"])] = a
     real_run_turn = core.Orchestrator.run_turn
     with Scratch() as root:
         with E.EngineEnv(root, clock) as ee:
